@@ -275,6 +275,15 @@ def worker(chk, wi, nw):
                     cls = ['fault:token:' + fk, 'source:generated']
                 else:
                     tokfault = False
+        if applied == 'none' and not tokfault and rnd.random() < 0.2:
+            # a template or location named like a keyword (the XML reader refuses those that are keywords of the old syntax or of the query language)
+            names = list(re.finditer(r'(<name[^>]*>)([^<]*)(</name>)', xml))
+            if names:
+                mo = rnd.choice(names)
+                kw = rnd.choice(['sup', 'inf', 'bounds', 'simulation', 'deadlock', 'control', 'strategy', 'minE', 'maxE', 'simulate', 'Pr', 'imply', 'process', 'urgent', 'true', 'guard', 'clock'])
+                xml = xml[:mo.start(2)] + kw + xml[mo.end(2):]
+                cls = ['fault:keyword-as-name', 'source:generated']
+                tokfault = True      # R1 works on the abstract model: use a token-level rewrite instead
         has_body = any(t.edges for t in m.templates)
         if rewrite == 'R1':
             if tokfault:
